@@ -48,9 +48,12 @@ class AppHarness:
         self.tmp = tempfile.mkdtemp(prefix="bvm-app-")
         path = os.path.join(self.tmp, "config.yaml")
         lines = ["api_version: v1", "name: bvm-app", "spec:"]
-        for i, name in enumerate(app_names):
-            lines += ["  - mode: client", "    applications:", "      - vendor_id: VENDOR_ID_3GPP", "        app_id: DIAMETER_APPLICATION_%s" % name,
-                      "    local:", "      hostname: %s" % local_host(i), "      realm: %s" % local_realm(i), "      ip_address: 127.0.0.1", "      port: %d" % (3868 + i),
+        # an element "Gx+Rx" is ONE connection entry that serves both applications (one worker, one connection)
+        for i, entry in enumerate(app_names):
+            lines += ["  - mode: client", "    applications:"]
+            for name in entry.split("+"):
+                lines += ["      - vendor_id: VENDOR_ID_3GPP", "        app_id: DIAMETER_APPLICATION_%s" % name]
+            lines += ["    local:", "      hostname: %s" % local_host(i), "      realm: %s" % local_realm(i), "      ip_address: 127.0.0.1", "      port: %d" % (3868 + i),
                       "    peer:", "      hostname: peer%d.remote.example" % i, "      realm: remote.example", "      ip_address: 127.0.0.%d" % (10 + i), "      port: 3868",
                       "    watchdog_timeout: 30"]
         with open(path, "w") as f:
@@ -58,16 +61,19 @@ class AppHarness:
         self.app = BB.Bromelia(config_file=path)
         self.workers = {}
         self.stubs = {}
-        for cfg, name in zip(self.app.configs, app_names):
+        self.entry_workers = []
+        for cfg, entry in zip(self.app.configs, app_names):
             stub = StubApp(cfg, sched)
             w = BB.Worker(stub, vsched.FakeManager(sched))
             w.is_open.set()
-            self.workers[name] = w
-            self.stubs[name] = stub
+            self.entry_workers.append((entry, w))
+            for name in entry.split("+"):
+                self.workers[name] = w
+                self.stubs[name] = stub
         self.app.associations = BB.Worker.associations
         self.app.recv_queues = BB.Worker.recv_queues
-        for name, w in self.workers.items():
-            sched.spawn("send_handler-%s" % name, w.send_handler)
+        for entry, w in self.entry_workers:
+            sched.spawn("send_handler-%s" % entry, w.send_handler)
 
     def cleanup(self):
         import shutil
@@ -75,7 +81,9 @@ class AppHarness:
 
     def sent(self, name=None):
         out = []
+        seen = set()
         for n, st in self.stubs.items():
-            if name is None or n == name:
+            if (name is None or n == name) and id(st) not in seen:
+                seen.add(id(st))
                 out += st.sent
         return sorted(out, key=lambda x: x[0])
